@@ -67,6 +67,18 @@ func checkC07(r *mon.Run) {
 func c07Case(r *mon.Run, rng *rand.Rand, s *rfix.Star, idx int) {
 	shape := rfix.Shape(rng.IntN(int(rfix.NumShapes)))
 	sc := s.GenScenario(rng, shape, time.Now().Unix())
+	if rng.IntN(6) == 0 {
+		// long paths: up to the format's 64 hop fields
+		room := 64 - sc.Spec.NumHops()
+		extra := make([]int, len(sc.Spec.Segs))
+		for k := rng.IntN(room + 1); k > 0; k-- {
+			i := rng.IntN(len(extra))
+			if len(sc.Spec.Segs[i].Seg.Hops)+extra[i] < 63 {
+				extra[i]++
+			}
+		}
+		sc.FuzzPadSegments(rng, extra)
+	}
 	// router-alert flags on hops this router does not process must survive
 	for g := 0; g < sc.Spec.NumHops(); g++ {
 		isLocal := false
